@@ -283,6 +283,10 @@ def monOp (op : String) (args : List String) : Option String :=
     | [remaining, startNs, expS, nowNs] =>
       some (if remaining == 0 || startNs + expS * 1000000000 < nowNs then "ok" else "viol C11-closed-before-expiry")
     | _ => none
+  | "mon_pos_ident" => do
+    let (known, ts) ← pBit args
+    let (ok, _) ← pBit ts
+    some (if ok && !known then "viol C08-unknown-identifier" else "ok")
   | "mon_toggle" => do
     let (good, _) ← pBit args
     some (if good then "ok" else "viol C17-toggle-effect")
